@@ -33,7 +33,7 @@ def evaluate_subprocess(spec):
     b, wd, inpath, klpath = _write(spec, "det")
     digests = []
     sig, detail = None, ""
-    runs = [("0", wd, {}), ("1", "/", {"TZ": "Pacific/Kiritimati", "LANG": "tr_TR.UTF-8", "COLUMNS": "20"}),
+    runs = [("0", wd, {}), ("1", "/", {"TZ": "Pacific/Kiritimati", "LANG": "tr_TR.UTF-8", "COLUMNS": "20", "PYTHONOPTIMIZE": str(1 + spec["hs"][0] % 2)}),
             (str(spec["hs"][0]), os.path.dirname(wd), {"HOME": "/nonexistent", "TZ": "UTC", "PYTHONIOENCODING": "ascii"}),
             (str(spec["hs"][1]), wd, {"LC_ALL": "POSIX", "PYTHONUTF8": "0", "PYTHONCOERCECLOCALE": "0", "PYTHONDONTWRITEBYTECODE": "1"})]
     for i, (hs, cwd, env) in enumerate(runs):
